@@ -21,6 +21,24 @@ TOKNAMES = ['UNKNOWN', 'BOOLEAN', 'INTEGER', 'STRING', 'KEYWORD', 'LBRACE', 'RBR
             'NO_PARALLEL', 'OBJ', 'PACKAGES', 'PARALLEL', 'QUIET', 'ROOT', 'SECONDS', 'TARGETS', 'YES', 'EOF']
 
 
+def build_driver(ctx, name, withz=False):
+    """build an extracted driver after compiling, under the framework's lock, the libraries its extraction file imports: the
+    proof target of one property does not depend on all of them (cf: the schedule files; rl, st, ip: other areas)"""
+    up = name.upper()
+    text = common.strip_coq_comments(open(os.path.join(common.COQ, 'extract', 'Extract%s.v' % up)).read())
+    targets = []
+    for m in re.finditer(r'From\s+(Robsd|RobsdGen)\s+Require\s+(?:Import|Export)\s+(.*?)\.(?=\s|$)', text, re.S):
+        for mod in m.group(2).split():
+            targets.append(('theories/' if m.group(1) == 'Robsd' else 'gen/') + mod.replace('.', '/') + '.vo')
+    if targets:
+        with common.Lock(os.path.join(common.COQ, '.lock')):
+            common.refresh_coqproject()
+            r = common.sh(['timeout', '1500', 'make', '-j8'] + targets, cwd=common.COQ)
+        if r.returncode != 0:
+            raise common.BuildFailure('libraries of the %s driver do not build:\n%s' % (name, r.stdout[-1500:]))
+    return ctx.build_driver(name, withz=withz)
+
+
 class World:
     """A scratch root with real directories, a plain file, glob targets; and the facts about this machine the
     model takes as inputs."""
